@@ -121,37 +121,49 @@ def distinctKeys : List (Str × Str) → Bool
   | [] => true
   | (k, _) :: rest => !(rest.any fun p => p.1 == k) && distinctKeys rest
 
+/-- one attribute `name S? = S? "value"` (or `'value'`) at the start of `s`:
+`(name, decoded value, rest)` -/
+def lexOneAttr (s : Str) : Option (Str × Str × Str) :=
+  let name := s.takeWhile nameChar
+  if name = [] then none else
+  match skipWs (s.dropWhile nameChar) with
+  | '=' :: s3 =>
+    match skipWs s3 with
+    | q :: s4 =>
+      if q = '"' || q = '\'' then
+        let raw := s4.takeWhile (· != q)
+        match s4.dropWhile (· != q) with
+        | _ :: s5 =>
+          if raw.contains '<' then none else
+          match unescapeXml (attrNorm raw) with
+          | none => none
+          | some v => some (name, v, s5)
+        | [] => none
+      else none
+    | [] => none
+  | _ => none
+
+/-- how a start tag ends -/
+def tagCloser : Str → Option (Bool × Str)
+  | '/' :: '>' :: r => some (true, r)
+  | '>' :: r => some (false, r)
+  | _ => none
+
 /-- the attributes of a start tag up to and including `>` or `/>`:
 `(attributes, self-closing, rest)`; `fuel` bounds the number of attributes -/
 def lexAttrs : Nat → Str → Option (List (Str × Str) × Bool × Str)
   | 0, _ => none
   | f + 1, s =>
-    match skipWs s with
-    | '/' :: '>' :: r => some ([], true, r)
-    | '>' :: r => some ([], false, r)
-    | s1 =>
+    match tagCloser (skipWs s) with
+    | some (sc, r) => some ([], sc, r)
+    | none =>
       if !startsWithWs s then none else
-      let name := s1.takeWhile nameChar
-      if name = [] then none else
-      match skipWs (s1.dropWhile nameChar) with
-      | '=' :: s3 =>
-        match skipWs s3 with
-        | q :: s4 =>
-          if q = '"' || q = '\'' then
-            let raw := s4.takeWhile (· != q)
-            match s4.dropWhile (· != q) with
-            | _ :: s5 =>
-              if raw.contains '<' then none else
-              match unescapeXml (attrNorm raw) with
-              | none => none
-              | some v =>
-                match lexAttrs f s5 with
-                | some (as, sc, r) => some ((name, v) :: as, sc, r)
-                | none => none
-            | [] => none
-          else none
-        | [] => none
-      | _ => none
+      match lexOneAttr (skipWs s) with
+      | none => none
+      | some (name, v, s5) =>
+        match lexAttrs f s5 with
+        | some (as, sc, r) => some ((name, v) :: as, sc, r)
+        | none => none
 
 /-- the body of a comment after `<!--`: up to `-->`; `--` inside is an error -/
 def splitComment : Str → Option (Str × Str)
@@ -171,33 +183,52 @@ inductive Res where
   | err
   | tok (t : Tok) (rest : Str)
 
+/-- after `<!` -/
+def lexBang (r : Str) : Res :=
+  match r with
+  | '-' :: '-' :: r' =>
+    match splitComment r' with
+    | some (body, rest) => .tok (.comment (normEol body)) rest
+    | none => .err
+  | _ => .err          -- DOCTYPE, CDATA: not read
+
+/-- after `</` -/
+def lexEtag (r : Str) : Res :=
+  let name := r.takeWhile nameChar
+  match skipWs (r.dropWhile nameChar) with
+  | '>' :: rest => if name = [] then .err else .tok (.etag name) rest
+  | _ => .err
+
+/-- after `<`, a start tag -/
+def lexStag (r : Str) : Res :=
+  let name := r.takeWhile nameChar
+  if name = [] then .err else
+  match lexAttrs (r.length + 1) (r.dropWhile nameChar) with
+  | some (as, sc, rest) => if distinctKeys as then .tok (.stag name as sc) rest else .err
+  | none => .err
+
+/-- after `<` -/
+def lexMarkup (r : Str) : Res :=
+  match r with
+  | '!' :: r' => lexBang r'
+  | '?' :: _ => .err          -- processing instructions: not read
+  | '/' :: r' => lexEtag r'
+  | _ => lexStag r
+
+/-- character data up to the next `<` -/
+def lexText (s : Str) : Res :=
+  let raw := s.takeWhile (· != '<')
+  if hasCdataEnd raw then .err else
+  match unescapeXml (normEol raw) with
+  | some t => .tok (.text t) (s.dropWhile (· != '<'))
+  | none => .err
+
 /-- one token -/
 def nextTok (s : Str) : Res :=
   match s with
   | [] => .eof
-  | '<' :: '!' :: '-' :: '-' :: r =>
-    match splitComment r with
-    | some (body, rest) => .tok (.comment (normEol body)) rest
-    | none => .err
-  | '<' :: '!' :: _ => .err          -- DOCTYPE, CDATA: not read
-  | '<' :: '?' :: _ => .err          -- processing instructions: not read
-  | '<' :: '/' :: r =>
-    let name := r.takeWhile nameChar
-    match skipWs (r.dropWhile nameChar) with
-    | '>' :: rest => if name = [] then .err else .tok (.etag name) rest
-    | _ => .err
-  | '<' :: r =>
-    let name := r.takeWhile nameChar
-    if name = [] then .err else
-    match lexAttrs (r.length + 1) (r.dropWhile nameChar) with
-    | some (as, sc, rest) => if distinctKeys as then .tok (.stag name as sc) rest else .err
-    | none => .err
-  | _ =>
-    let raw := s.takeWhile (· != '<')
-    if hasCdataEnd raw then .err else
-    match unescapeXml (normEol raw) with
-    | some t => .tok (.text t) (s.dropWhile (· != '<'))
-    | none => .err
+  | '<' :: r => lexMarkup r
+  | _ => lexText s
 
 def lexAll : Nat → Str → Option (List Tok)
   | 0, _ => none
